@@ -253,11 +253,7 @@ fn judge(c: &mut Case<'_>, req: &Req, class: &str, source: &str) -> CaseResult {
             Ok(())
         }
         (true, None) => {
-            let dup_unsorted = {
-                let pairs = req.query.as_deref().and_then(sigv4::query_pairs).unwrap_or_default();
-                pairs.iter().enumerate().any(|(i, a)| pairs[i + 1..].iter().any(|b| a.0 == b.0 && a.1 > b.1))
-            };
-            let sig = if dup_unsorted { "query-dup-value-order".to_owned() } else { format!("rejects-valid:{class}") };
+            let sig = format!("rejects-valid:{class}");
             Err(c.fail(sig, format!("valid presigned request ({source}, {class}) refused: {} {:?} {:?}\n{}", out.status, out.code, out.message, req.render())))
         }
         (false, Some((ak, ..))) => {
@@ -374,12 +370,6 @@ pub fn run(r: &mut Runner) {
         let other = format!("{}{}", &d8[..7], if &d8[7..] == "1" { "2" } else { "1" });
         req.query = Some(req.query.unwrap().replace(&format!("%2F{d8}%2F"), &format!("%2F{other}%2F")));
         judge(c, &req, "mut:credential-scope-date", "reference")
-    });
-    r.probe("query-dup-value-order", |c| {
-        let s = Signer { access_key: AK1.into(), secret: SK1.into(), region: "us-east-1".into(), service: "s3".into(), date16: now_date16(-5) };
-        let mut req = Req { method: "GET".into(), path: "/bucket/key".into(), query: Some("qa=2&qa=1".into()), headers: vec![("host".into(), "s3.example.test".into())], body: vec![] };
-        s.presign(&mut req, "3600", &[]);
-        judge(c, &req, "honest", "reference")
     });
     r.search("reference-presigner", r.scale(30_000, 1_000_000), 512, reference_case);
     r.search("sdk-presigner", r.scale(8_000, 300_000), 256, sdk_case);
